@@ -126,3 +126,82 @@ func init() {
 	// initialisation cycle
 	BoolType.New = BoolNew
 }
+
+// bool is a subclass of int in python so it takes part in arithmetic
+// and ordering as 0 or 1.  These methods delegate to the Int
+// implementation (which already accepts a Bool as the other operand).
+// &, | and ^ of two bools stay bool.
+
+func (a Bool) asInt() Int {
+	if a {
+		return Int(1)
+	}
+	return Int(0)
+}
+
+func (a Bool) M__neg__() (Object, error)    { return a.asInt().M__neg__() }
+func (a Bool) M__pos__() (Object, error)    { return a.asInt().M__pos__() }
+func (a Bool) M__abs__() (Object, error)    { return a.asInt().M__abs__() }
+func (a Bool) M__invert__() (Object, error) { return a.asInt().M__invert__() }
+func (a Bool) M__int__() (Object, error)    { return a.asInt(), nil }
+func (a Bool) M__float__() (Object, error)  { return a.asInt().M__float__() }
+
+func (a Bool) M__add__(other Object) (Object, error)       { return a.asInt().M__add__(other) }
+func (a Bool) M__radd__(other Object) (Object, error)      { return a.asInt().M__radd__(other) }
+func (a Bool) M__sub__(other Object) (Object, error)       { return a.asInt().M__sub__(other) }
+func (a Bool) M__rsub__(other Object) (Object, error)      { return a.asInt().M__rsub__(other) }
+func (a Bool) M__mul__(other Object) (Object, error)       { return a.asInt().M__mul__(other) }
+func (a Bool) M__rmul__(other Object) (Object, error)      { return a.asInt().M__rmul__(other) }
+func (a Bool) M__truediv__(other Object) (Object, error)   { return a.asInt().M__truediv__(other) }
+func (a Bool) M__rtruediv__(other Object) (Object, error)  { return a.asInt().M__rtruediv__(other) }
+func (a Bool) M__floordiv__(other Object) (Object, error)  { return a.asInt().M__floordiv__(other) }
+func (a Bool) M__rfloordiv__(other Object) (Object, error) { return a.asInt().M__rfloordiv__(other) }
+func (a Bool) M__mod__(other Object) (Object, error)       { return a.asInt().M__mod__(other) }
+func (a Bool) M__rmod__(other Object) (Object, error)      { return a.asInt().M__rmod__(other) }
+func (a Bool) M__lshift__(other Object) (Object, error)    { return a.asInt().M__lshift__(other) }
+func (a Bool) M__rlshift__(other Object) (Object, error)   { return a.asInt().M__rlshift__(other) }
+func (a Bool) M__rshift__(other Object) (Object, error)    { return a.asInt().M__rshift__(other) }
+func (a Bool) M__rrshift__(other Object) (Object, error)   { return a.asInt().M__rrshift__(other) }
+func (a Bool) M__rpow__(other Object) (Object, error)      { return a.asInt().M__rpow__(other) }
+
+func (a Bool) M__pow__(other, modulus Object) (Object, error) {
+	return a.asInt().M__pow__(other, modulus)
+}
+
+func (a Bool) M__divmod__(other Object) (Object, Object, error) {
+	return a.asInt().M__divmod__(other)
+}
+
+func (a Bool) M__rdivmod__(other Object) (Object, Object, error) {
+	return a.asInt().M__rdivmod__(other)
+}
+
+func (a Bool) M__and__(other Object) (Object, error) {
+	if b, ok := other.(Bool); ok {
+		return NewBool(bool(a) && bool(b)), nil
+	}
+	return a.asInt().M__and__(other)
+}
+
+func (a Bool) M__or__(other Object) (Object, error) {
+	if b, ok := other.(Bool); ok {
+		return NewBool(bool(a) || bool(b)), nil
+	}
+	return a.asInt().M__or__(other)
+}
+
+func (a Bool) M__xor__(other Object) (Object, error) {
+	if b, ok := other.(Bool); ok {
+		return NewBool(bool(a) != bool(b)), nil
+	}
+	return a.asInt().M__xor__(other)
+}
+
+func (a Bool) M__rand__(other Object) (Object, error) { return a.asInt().M__rand__(other) }
+func (a Bool) M__ror__(other Object) (Object, error)  { return a.asInt().M__ror__(other) }
+func (a Bool) M__rxor__(other Object) (Object, error) { return a.asInt().M__rxor__(other) }
+
+func (a Bool) M__lt__(other Object) (Object, error) { return a.asInt().M__lt__(other) }
+func (a Bool) M__le__(other Object) (Object, error) { return a.asInt().M__le__(other) }
+func (a Bool) M__gt__(other Object) (Object, error) { return a.asInt().M__gt__(other) }
+func (a Bool) M__ge__(other Object) (Object, error) { return a.asInt().M__ge__(other) }
